@@ -156,6 +156,7 @@ def run(rep: Report) -> None:
     rep.rule("R18.11", "Level.__init__ stores the magnitude and unit it is given (no snapping, no rounding: every computed level is built through it)", floor=2)
     rep.rule("R18.10", "a copy/pickle hook on Logarithm / LogarithmicUnit passes every argument its __new__ interns under (otherwise the copy lands on "
              "another interned object, e.g. Bel for a decibel, and overwrites it)", floor=2)
+    rep.rule("R18.13", "ROOT_POWER_DIMENSIONS is written nowhere but in its literal (k must not depend on import history)", floor=1)
     rep.rule("R18.9", "ROOT_POWER_DIMENSIONS has no entry written twice", floor=1)
     rep.rule("R18.8", "membership of the reference's dimension in ROOT_POWER_DIMENSIONS cannot go stale: interned classes hash by identity or over "
              "fields nothing assigns after construction (shared with C02 R02.11)", floor=5)
@@ -299,6 +300,32 @@ def run(rep: Report) -> None:
     rep.check("R18.9", "ROOT_POWER_DIMENSIONS:distinct", len(distinct) == len(table),
               f"ROOT_POWER_DIMENSIONS lists {len(table)} dimensions but only {len(distinct)} different ones: an entry is written twice (structurally equal "
               "dimensions are one object) and the dimension it was meant to be is missing, so k = 1 is used for it", "src/measured/__init__.py")
+
+    # ---- R18.13 the table is its literal: whether a dimension is root-power must not depend on which modules were imported
+    import glob as _glob
+    import os as _os
+    from ..core import SRC as _SRC, rel as _rel
+    n13 = 0
+    for path in sorted(_glob.glob(_os.path.join(_SRC, "*.py"))):
+        if _os.path.basename(path) == "_parser.py":
+            continue
+        tr = ast.parse(open(path, encoding="utf-8").read())
+        for x in ast.walk(tr):
+            hit = None
+            if isinstance(x, ast.Call) and isinstance(x.func, ast.Attribute) and x.func.attr in ("add", "update", "discard", "remove", "clear", "pop", "append", "extend", "insert", "__ior__") \
+                    and ast.unparse(x.func.value).split(".")[-1] == "ROOT_POWER_DIMENSIONS":
+                hit = x
+            if isinstance(x, ast.AugAssign) and ast.unparse(x.target).split(".")[-1] == "ROOT_POWER_DIMENSIONS":
+                hit = x
+            if isinstance(x, ast.Assign) and any(ast.unparse(t).split(".")[-1] == "ROOT_POWER_DIMENSIONS" for t in x.targets) and _os.path.basename(path) != "__init__.py":
+                hit = x
+            if hit is not None:
+                n13 += 1
+                rep.fail("R18.13", f"{_os.path.basename(path)}:{ast.unparse(hit)[:50]}", f"{_os.path.basename(path)} changes ROOT_POWER_DIMENSIONS at run time "
+                         f"(`{ast.unparse(hit)[:60]}`): the power ratio k of a logarithmic unit then depends on which modules have been imported when the level is "
+                         "taken (10 dB before, 20 dB after)", f"{_rel(path)}:{hit.lineno}")
+    if n13 == 0:
+        rep.ok("R18.13", "package", note="ROOT_POWER_DIMENSIONS is only ever its literal")
 
     # ---- R18.5 declared bases
     for key, lg in ev.logs.items():
